@@ -44,6 +44,11 @@ def step (w : List String) : String :=
       | some false => "0"
       | none => "none"
     | none => "bad-op"
+  | ["api", h] => match unhexS h with
+    | some s =>
+      -- every cell-name API normalises (ASCII upper-casing) and decodes: one verdict for all eight
+      if (apiRef s).isSome then "AAAAAAAA" else "RRRRRRRR"
+    | none => "bad-op"
   | _ => "bad-op"
 
 def run : IO Unit := runStateless step
